@@ -127,6 +127,32 @@ impl<'de> serde::Deserialize<'de> for LocaleServerFnOutputClient {
     }
 }
 
+/// Push `s` as a JS string literal that is safe to embed in a `<script>` element.
+#[cfg(all(feature = "dynamic_load", any(feature = "ssr", feature = "hydrate")))]
+fn push_js_str(buff: &mut String, s: &str) {
+    use std::fmt::Write;
+    buff.push('"');
+    for c in s.chars() {
+        match c {
+            '"' => buff.push_str("\\\""),
+            '\\' => buff.push_str("\\\\"),
+            '\n' => buff.push_str("\\n"),
+            '\r' => buff.push_str("\\r"),
+            '\t' => buff.push_str("\\t"),
+            // `</script>` or `<!--` in a translation must not end or comment out the script element,
+            // U+2028 and U+2029 are line terminators in older JS engines.
+            '<' | '\u{2028}' | '\u{2029}' => {
+                let _ = write!(buff, "\\u{:04x}", c as u32);
+            }
+            c if (c as u32) < 0x20 => {
+                let _ = write!(buff, "\\u{:04x}", c as u32);
+            }
+            c => buff.push(c),
+        }
+    }
+    buff.push('"');
+}
+
 #[cfg(all(feature = "dynamic_load", feature = "ssr"))]
 mod register {
     use super::*;
@@ -178,9 +204,7 @@ mod register {
                     if !std::mem::replace(&mut first, false) {
                         buff.push(',');
                     }
-                    buff.push('\"');
-                    buff.push_str(value);
-                    buff.push('\"');
+                    push_js_str(&mut buff, value);
                 }
                 buff.push_str("]}");
             }
@@ -235,9 +259,7 @@ pub fn init_translations<L: Locale>() -> impl leptos::IntoView {
             if !std::mem::replace(&mut first, false) {
                 buff.push(',');
             }
-            buff.push('\"');
-            buff.push_str(value);
-            buff.push('\"');
+            push_js_str(&mut buff, value);
         }
         buff.push_str("]}");
         L::init_translations(locale, id, values);
